@@ -2,5 +2,6 @@
 EXTENDS Packer
 \* a data blob and a tree blob share the id "x" (file content = serialisation of a directory); "a" is submitted twice
 InputCollide == [t \in {"data", "tree"} |-> IF t = "data" THEN <<"a", "x", "a">> ELSE <<"x", "r">>]
+InputBig     == [t \in {"data", "tree"} |-> IF t = "data" THEN <<"a", "x", "a", "b", "c", "x">> ELSE <<"x", "s", "r">>]
 InputPlain   == [t \in {"data", "tree"} |-> IF t = "data" THEN <<"a", "b", "a", "c">> ELSE <<"s", "r">>]
 =============================================================================
